@@ -355,6 +355,7 @@ class Interp:
         self.var_names = {}
         self.cond_stack = []
         self.extra_guards = []
+        self.homes = {}            # variable id -> environment that defines it (for &mut references crossing call frames)
         self.early_conds = []      # (condition with boolean tree, value, index guards) of every early exit
         self.frames = []           # call frames: early returns of the frame are folded into its result (see note_early)
         self.allow_ref_writes_after_exit = False   # a rule that reads the write log (with its conditions) itself may switch this on
@@ -366,13 +367,19 @@ class Interp:
         def __init__(self, parent=None):
             self.vars = {}
             self.parent = parent
+            self.homes = parent.homes if parent is not None else None     # per-interpreter registry, attached by run_fn
 
+        # variable ids are unique per body, so a `&mut` reference handed to a callee (whose environment does not chain to the caller's)
+        # still names one variable: where it lives is remembered when it is defined
         def lookup(self, vid):
             e = self
             while e is not None:
                 if vid in e.vars:
                     return e
                 e = e.parent
+            h = self.homes.get(vid) if self.homes is not None else None
+            if h is not None and vid in h.vars:
+                return h
             return None
 
         def get(self, vid):
@@ -387,6 +394,8 @@ class Interp:
 
         def define(self, vid, val):
             self.vars[vid] = val
+            if self.homes is not None:
+                self.homes[vid] = self
 
     # ---- entry points -------------------------------------------------------------------------
     def body_of(self, path):
@@ -404,6 +413,13 @@ class Interp:
         if b is None:
             raise Undecided("no body for %s" % path)
         e = Interp.Env(env)
+        if e.homes is None:
+            e.homes = self.homes
+        if env is not None and env.homes is None:
+            # a synthetic environment built by a rule (`env.define("T", table)`): adopt it
+            env.homes = self.homes
+            for vid_ in env.vars:
+                self.homes[vid_] = env
         params = [p for p in b["params"]]
         if len(params) != len(args):
             # closures: first THIR param is the closure environment
